@@ -343,3 +343,46 @@ Print Assumptions c06_emitted_live_poll_strict.
 Print Assumptions c06_emitted_live_ok_guarded_step.
 Print Assumptions c06_emitted_live_ok_other_events.
 Print Assumptions c06_emitted_live_ok_g_every_trace.
+
+(* ---- c06_backoff_ok: after EVERY event the RTO is within [200 ms, 60 s]; the poll in which the RTO part
+   retransmitted a data segment emitted exactly that ST_DATA, doubled the estimator's RTO (capped; untouched
+   for an MTU probe) and restarted the timer at now + RTO -- whatever else the poll did (restarts included).
+   Invariants: ti (Conn/VSock_LemmasTimers.v) and LB 0 (Conn/C17_StepLemmas.v), both kept by every event. *)
+From Utp Require Import Conn.VSock_LemmasTimers Conn.C06_StepLemmas2.
+
+Theorem c06_backoff_ok_every_step : forall (CC : Type) (cci : cc_iface CC) (cfg : vconfig) (s : vsock CC) (o : vop),
+  ti s -> LB 0 s -> c06_backoff_ok cfg (VSock_Lemmas.fstep_of cci s o) = true.
+Proof. exact @c06_backoff_ok_step. Qed.
+
+Theorem c06_backoff_ok_every_trace : forall (CC : Type) (cci : cc_iface CC) (cfg : vconfig)
+    (mk : Z -> Z -> CC) (c : vconfig) (s0 : vsock CC) (ops : list vop),
+  vconfig_ok c = true -> vsock_new cci mk c = Some s0 ->
+  forallb (c06_backoff_ok cfg) (ftrace cci s0 ops) = true.
+Proof. exact @c06_backoff_ok_trace. Qed.
+
+(* the poll-level form: BC r0 rt0 s' = ti, the poll's clock is env.now(), and EITHER the RTO branch fired
+   (MF: one ST_DATA among non-data datagrams, naming a table segment; estimator = on_rto_timeout rt0, or rt0
+   for a probe; timer = now + RTO; counter = r0 + 1) OR the counter did not grow *)
+Theorem c06_backoff_poll : forall (CC : Type) (cci : cc_iface CC) (r0 : Z) (rt0 : rtt_state) (s s' : vsock CC),
+  ti s -> v_rto_retransmissions s = r0 -> v_rtte s = rt0 ->
+  poll cci s = (s', PollPending) -> BC r0 rt0 s'.
+Proof. exact @poll_backoff. Qed.
+
+(* what one send_tx_queue call does to the RTO counter *)
+Theorem c06_send_tx_queue_rto_counter : forall (CC : Type) (cci : cc_iface CC) (s s' : vsock CC) (u : unit),
+  send_tx_queue cci s = SOk s' u -> ti s -> stq_out s s'.
+Proof. exact @stq_mode. Qed.
+
+(* an RTT sample is taken only by a poll whose messages acknowledged something *)
+Theorem c06_incoming_path_rto_mode : forall (CC : Type) (cci : cc_iface CC) (s s' : vsock CC) (u : unit),
+  process_all_incoming_messages cci s = SOk s' u -> RB s ->
+  RB s' /\ v_now s' = v_now s /\
+  ((v_rto_retransmissions s' = v_rto_retransmissions s /\ v_rtte s' = v_rtte s /\ (NE s -> NE s')) \/
+   (v_rto_retransmissions s' = 0 /\ NE s')).
+Proof. exact @pim_mode. Qed.
+
+Print Assumptions c06_backoff_ok_every_step.
+Print Assumptions c06_backoff_ok_every_trace.
+Print Assumptions c06_backoff_poll.
+Print Assumptions c06_send_tx_queue_rto_counter.
+Print Assumptions c06_incoming_path_rto_mode.
